@@ -152,6 +152,14 @@ class Capture:
         return out
 
 
+class CaptureEmptyLen(Capture):
+    """The same solver as a callable OBJECT that is falsy (a memoising solver written as a container: its cache is empty at first).
+    Being callable is the contract; truthiness is not."""
+
+    def __len__(self):
+        return 0
+
+
 def feasible_points(polyhedron):
     M = np.asarray(polyhedron, dtype=np.int64)
     bds = [tuple(int(x) for x in v.bounds.as_tuple()) for v in polyhedron.variables[1:]]
